@@ -191,14 +191,18 @@ class FlatfileMapping(MappingInterface):
         return '%s:%s\n' % (self._canonicalId(id), s)
 
     def add(self, s):
-        line = self._joinLine(self.currentId, s)
+        id = self.currentId
+        line = self._joinLine(id, s)
         fd = open(self.filename, 'r+')
         try:
+            # The next id goes to the file before the record does: if we die
+            # in between, an id is skipped; the other way round the same id
+            # would be given out again after a restart.
+            self._incrementCurrentId(fd)
             fd.seek(0, 2) # End.
             fd.write(line)
-            return self.currentId
+            return id
         finally:
-            self._incrementCurrentId(fd)
             fd.close()
 
     def get(self, id):
